@@ -847,17 +847,18 @@ impl Interpreter {
     // Call Stack Depth
     // ═══════════════════════════════════════════════════════════════════════════
 
-    /// Get the current call stack depth.
+    /// Get the current call stack depth: the number of script function calls that are active.
     ///
-    /// Returns the total depth combining the interpreter's call stack and
-    /// the active VM's trampoline stack (if any).
+    /// Every call pushes one entry on the interpreter's call stack, whether it runs on the
+    /// active VM's trampoline stack or on a nested VM. The trampoline depth is therefore not
+    /// added on top (trampolined calls would be counted twice); it only serves as a lower bound.
     pub fn call_depth(&self) -> usize {
         let vm_depth = self
             .active_vm
             .as_ref()
             .map(|vm| vm.trampoline_depth())
             .unwrap_or(0);
-        self.call_stack.len() + vm_depth
+        self.call_stack.len().max(vm_depth)
     }
 
     /// Read-only snapshot of execution bookkeeping (verification hook H4).
